@@ -396,6 +396,7 @@ theorem judgeTrans_of_exact {m : Mon} {op : Op} {o : Obs} (h : exactTrans m op o
   | sync _ _ _ _ => rfl
   | hb _ _ _ => rfl
   | reconcileCount => rfl
+  | restart => rfl
   | meter _ => rfl
   | event => rfl
   | release _ => rfl
@@ -2044,6 +2045,7 @@ theorem step_noop {K : Kind} {cfg : Cfg} {st : State} {m : Mon} (hi : Inv K cfg 
     | sync _ _ _ _ => rfl
     | shards _ => rfl
     | reconcileCount => rfl
+    | restart => rfl
     | answer _ _ => rfl
     | meter _ => rfl
   have hfl : FlInv cfg st (m.next op (observe cfg st)) := by
@@ -2062,6 +2064,7 @@ theorem step_noop {K : Kind} {cfg : Cfg} {st : State} {m : Mon} (hi : Inv K cfg 
       | sync _ _ _ _ => simp [Mon.next, hrb, hnb, hst]
       | shards _ => simp [Mon.next, hrb, hnb, hst]
       | reconcileCount => simp [Mon.next, hrb, hnb, hst]
+      | restart => simp [Mon.next, hrb, hnb, hst]
       | answer _ _ => simp [Mon.next, hrb, hnb, hst]
       | meter _ => simp [Mon.next, hrb, hnb, hst]
     · cases op with
@@ -2075,6 +2078,7 @@ theorem step_noop {K : Kind} {cfg : Cfg} {st : State} {m : Mon} (hi : Inv K cfg 
       | sync _ _ _ _ => simp [Mon.next, hrb, hnb, hst]
       | shards _ => simp [Mon.next, hrb, hnb, hst]
       | reconcileCount => simp [Mon.next, hrb, hnb, hst]
+      | restart => simp [Mon.next, hrb, hnb, hst]
       | answer _ _ => simp [Mon.next, hrb, hnb, hst]
       | meter _ => simp [Mon.next, hrb, hnb, hst]
     · cases op with
@@ -2088,6 +2092,7 @@ theorem step_noop {K : Kind} {cfg : Cfg} {st : State} {m : Mon} (hi : Inv K cfg 
       | sync _ _ _ _ => simp [Mon.next, hrb, hnb, hst]
       | shards _ => simp [Mon.next, hrb, hnb, hst]
       | reconcileCount => simp [Mon.next, hrb, hnb, hst]
+      | restart => simp [Mon.next, hrb, hnb, hst]
       | answer _ _ => simp [Mon.next, hrb, hnb, hst]
       | meter _ => simp [Mon.next, hrb, hnb, hst]
   have hcnt : CntInv st (m.next op (observe cfg st)) := by
@@ -2102,6 +2107,7 @@ theorem step_noop {K : Kind} {cfg : Cfg} {st : State} {m : Mon} (hi : Inv K cfg 
       | schema _ => exact hi.cnt.clock
       | shards _ => exact hi.cnt.clock
       | reconcileCount => exact hi.cnt.clock
+      | restart => exact hi.cnt.clock
       | answer _ _ => exact hi.cnt.clock
       | meter _ => exact hi.cnt.clock
       | setLimit _ => exact hi.cnt.clock
@@ -2115,6 +2121,7 @@ theorem step_noop {K : Kind} {cfg : Cfg} {st : State} {m : Mon} (hi : Inv K cfg 
       | schema _ => simp [Mon.next, heff]
       | shards _ => simp [Mon.next, heff]
       | reconcileCount => simp [Mon.next, heff]
+      | restart => simp [Mon.next, heff]
       | answer _ _ => simp [Mon.next, heff]
       | meter _ => simp [Mon.next, heff]
       | setLimit _ => simp [Mon.next, heff]
@@ -2128,6 +2135,7 @@ theorem step_noop {K : Kind} {cfg : Cfg} {st : State} {m : Mon} (hi : Inv K cfg 
       | schema _ => rfl
       | shards _ => rfl
       | reconcileCount => rfl
+      | restart => rfl
       | answer _ _ => rfl
       | meter _ => rfl
       | setLimit _ => rfl
@@ -3944,6 +3952,8 @@ theorem step_inv {K : Kind} {cfg : Cfg} {st : State} {m : Mon} {op : Op} (hi : I
     cases op with
     | schema s => exact step_schema hi s hop
     | shards n => exact step_shards hi n
+    | restart =>
+      exact step_noop hi _ (by simp [step]) (by simp [effective]) rfl ⟨rfl, rfl, rfl, rfl, rfl⟩ rfl
     | sync fail n leader now => exact step_sync hi fail n leader now
     | hb ok now other => exact step_hb hi ok now other
     | reconcileCount => exact step_reconcile hi
@@ -4047,6 +4057,7 @@ theorem monLe_next {m : Mon} {G : Bound} (h : MonLe m G) (op : Op) (o : Obs)
     | sync _ _ _ _ => exact h.sch s hs
     | hb _ _ _ => exact h.sch s hs
     | reconcileCount => exact h.sch s hs
+    | restart => exact h.sch s hs
     | answer _ _ => exact h.sch s hs
     | meter _ => exact h.sch s hs
     | setLimit _ => exact h.sch s hs
@@ -4203,6 +4214,7 @@ theorem opOK_of' {K : Kind} {op : Op} (h : OpOK' op) (hn : ∀ s, op ≠ .schema
   | sync _ _ _ _ => trivial
   | hb _ _ _ => trivial
   | reconcileCount => trivial
+  | restart => trivial
   | answer _ _ => trivial
   | setLimit _ => trivial
   | event => trivial
